@@ -230,6 +230,7 @@ def hyp_search(check, strategy, n_examples: int, seed: int, stats: Stats, shrink
 
     last = {}
     phases = [Phase.generate] + ([Phase.shrink] if shrink else [])
+    check = guarded(check)
 
     @hypothesis.seed(seed)
     @settings(
@@ -243,8 +244,6 @@ def hyp_search(check, strategy, n_examples: int, seed: int, stats: Stats, shrink
         print_blob=False,
         verbosity=hypothesis.Verbosity.quiet,
     )
-    check = guarded(check)
-
     @given(strategy)
     def run(case):
         try:
